@@ -222,6 +222,11 @@ pub fn run(ctx: &Ctx) -> i32 {
         let rctx = Ctx { threads: 16, ..ctx.clone() };
         total.merge(run_generated(&rctx, &crate::engines::rtpool::RtPoolEngine { prop: "C04" }, "real-time-h2-steady-use", crate::engines::rtpool::h2_strategy, ctx.cases(64, 2_000), 16));
     }
+    if d.prop == "C05" {
+        // a request labelled HTTP/2 between two HTTP/1 uses: looking at a pooled connection is not using it
+        let rctx = Ctx { threads: 16, ..ctx.clone() };
+        total.merge(run_generated(&rctx, &crate::engines::rtpool::RtPoolEngine { prop: "C05" }, "real-time-looked-at-but-not-used", crate::engines::rtpool::probe_strategy, ctx.cases(48, 1_500), 12));
+    }
     if d.prop == "C05" || d.prop == "C15" {
         // end to end in real time through Client::builder(): idle expiry and the idle bound with real
         // hyper connections, requests that outlast the idle timeout, pauses on both sides of it
